@@ -24,6 +24,47 @@ def slot_load(n):
             and strip(strip(n).kids[0]).k == "MemberExpr" and strip(strip(n).kids[0]).field == "buffer")
 
 
+def _claim_table(fn, rec, mode, cnt, other, c, ld_c, ld_o, ops, out):
+    """claim table for one CAS site `c`; appends the first problem to `out`"""
+    from rules import is_var_load
+    isC = nodeset([l.node for l in ld_c])
+    isO = nodeset([l.node for l in ld_o])
+    cvar = strip(c.expected)
+    cv = strip(cvar.kids[0]).did if cvar.k == "UnaryOperator" and cvar.op == "&" else None
+    isCv = (lambda n: isC(n) or is_var_load(cv)(n)) if cv else isC
+    others = [x for x in ops if x is not c]
+    # a CAS that fails writes the current counter value back into its `expected` variable: loads of that variable that
+    # can follow a lost CAS see a newer value (somebody else advanced the counter by at least one)
+    refreshed = set()
+    if cv:
+        varloads = [n for n in fn.nodes if is_var_load(cv)(n)]
+        kills = nodeset([e[1] for e in fn.defs().get(cv, []) if e[0] in ("init", "assign")])
+        for x in others:
+            for n in varloads:
+                if fn.find_path(x.node, lambda m, n=n: m is n, barrier=kills) is not None:
+                    refreshed.add(n.id)
+    isRef = lambda n: n.id in refreshed
+    N = 4
+    for H in (0, 1, 3, 4, 5, 8):
+        for L in (0, 1, 4, 5):
+            for V in (0, 4096):
+                cur = H if mode == "push" else L
+                pairs = [(isRef, cur + 1), (isCv, cur), (isO, L if mode == "push" else H), (slot_load, V),
+                         (fld_load("size", rec), N), (fld_load("power_of_2_mod", rec), N - 1), (lambda n: n is c.node, 1)]
+                pairs += [(lambda n, x=x: n is x.node, 0) for x in others]   # the other claim attempts lost
+                atom = atom_from(pairs)
+                # the position this CAS would claim is the refreshed one when the claim follows a lost CAS
+                after_loss = bool(refreshed) and any(fn.find_path(x.node, lambda m: m is c.node) is not None for x in others)
+                Hc, Lc = (H + 1, L) if (after_loss and mode == "push") else ((H, L + 1) if (after_loss and mode == "pop") else (H, L))
+                diff = (Hc - Lc) % (2 ** 64)
+                want = (V == 0 and diff < N) if mode == "push" else (V != 0 and Hc > Lc)
+                got = reach(fn, [c.node], atom)
+                if got and not want:
+                    out.append("with %s=%d (%d after the lost CAS refreshed it) %s=%d and the slot %s this CAS is reachable: it claims a position that is not free" %
+                               (cnt, H if mode == "push" else L, Hc if mode == "push" else Lc, other, L if mode == "push" else H, "NULL" if V == 0 else "occupied"))
+                    return
+
+
 def check_claim(ctx, P, fn, rec, mode, rule):
     """mode = push | pop ; shared by the ring buffer and the bounded channel"""
     cnt, other = ("high", "low") if mode == "push" else ("low", "high")
@@ -39,9 +80,16 @@ def check_claim(ctx, P, fn, rec, mode, rule):
     ld_c = [l for l in fn.loads_of(rec, cnt) if l.node.k == "AtomicExpr" and not any(s.node is l.node for s in ops)]
     ld_o = [l for l in fn.loads_of(rec, other) if l.node.k == "AtomicExpr"]
     bad = None
-    if len(ops) != 1 or not ld_c:
+    if not ops or not ld_c:
         o.fail("shape not recognised (CAS %d, loads %d/%d)" % (len(ops), len(ld_c), len(ld_o)), site=fn.loc, construct=rule + " shape")
         return
+    if len(ops) > 1:
+        # several claim sites (e.g. a retry path): each one must satisfy the claim table on its own
+        for extra in ops[1:]:
+            _claim_table(fn, rec, mode, cnt, other, extra, ld_c, ld_o, ops, o_collect := [])
+            if o_collect:
+                o.fail("claim site at %s: %s" % (extra.node.loc, o_collect[0]), site=extra.node, construct=rule + " extra claim site")
+                return
     c = ops[0]
     if not ld_o:
         # the other counter is not read here (e.g. the test was moved into a helper that takes its own snapshot): the table
